@@ -669,9 +669,6 @@ func c44Sockets(r *mon.Run, g *c44Gen) {
 		r.Eval(1)
 		got, ok := recv(appA, 5*time.Second)
 		if !ok || string(got) != string(marker) {
-			if os.Getenv("C44_DEBUG") != "" {
-				fmt.Printf("DEBUG marker lost ok=%v marker=%x got=%x\n", ok, marker, got)
-			}
 			r.Inconclusive("socket-marker-lost")
 			continue
 		}
